@@ -401,6 +401,7 @@ impl<'a> G<'a>
     {
         if self.r.chance(self.c.pct_excl) { if self.r.chance(30) { Flavour::ExclusiveWarn } else { Flavour::Exclusive } }
         else if self.r.chance(self.c.pct_fallible) { if self.r.chance(75) { Flavour::FallibleDrop } else { Flavour::FallibleWarn } }
+        else if self.r.chance(12) { Flavour::InParamSet }
         else { Flavour::Plain }
     }
 
@@ -551,7 +552,7 @@ impl<'a> G<'a>
             x if x == K::WrAdd as usize => { let k = *self.r.pick(&self.wr.clone()); let n = self.r.range(1, 3); let t: Vec<Trig> = (0..n).map(|_| self.any_trig()).collect(); Op::WrAdd(k, dedup(t)) }
             x if x == K::WrRemove as usize => { let k = *self.r.pick(&self.wr.clone()); let n = self.r.range(1, 3); let t: Vec<Trig> = (0..n).map(|_| self.any_trig()).collect(); Op::WrRemove(k, dedup(t)) }
             x if x == K::WrRun as usize => Op::WrRun(*self.r.pick(&self.wr.clone())),
-            x if x == K::EwrAdd as usize => Op::EwrAdd(*self.r.pick(&self.ewr.clone()), s, self.r.range(1, 9) as u32),
+            x if x == K::EwrAdd as usize => { let k = *self.r.pick(&self.ewr.clone()); let d = self.r.range(1, 9) as u32; if self.r.chance(35) { Op::EwrAddEc(k, s, d) } else { Op::EwrAdd(k, s, d) } }
             x if x == K::EwrRemove as usize => { let k = *self.r.pick(&self.ewr.clone()); let full = if k == 0 { 0b11 } else { 0b111 }; let mask = if self.r.chance(40) { full } else { self.r.range(1, full as u64) as u8 }; if self.r.chance(35) && self.nslots >= 2 { let s2 = (s + 1 + self.r.below(self.nslots as u64 - 1) as Slot) % self.nslots; let m2 = if self.r.chance(50) { full } else { self.r.range(1, full as u64) as u8 }; let mut parts = vec![(s, mask), (s2, m2)]; if self.r.chance(50) { parts.reverse(); } Op::EwrRemoveMany(k, parts) } else { Op::EwrRemove(k, s, mask) } }
             x if x == K::CmdSyscall as usize => crate::sysfam::gen_cmd_syscall(self.r)?,
             _ => return None,
@@ -673,6 +674,17 @@ pub fn generate(seed: u64, base: &Cfg) -> Program
             let k = g.r.weighted(&w);
             if k == D::Sig as usize && g.c.signals
             {
+                // now and then a bulk release: many signals reach zero between two collections (sizes straddle powers of two)
+                if g.r.chance(10)
+                {
+                    let n = match g.r.below(6) { 0 => g.r.range(1, 6), 1 => g.r.range(60, 70), 2 => g.r.range(120, 135), 3 => g.r.range(250, 262), 4 => g.r.range(500, 530), _ => g.r.range(7, 40) } as u16;
+                    let m = if g.r.chance(50) { 0 } else { g.r.range(2, 9) as u8 };
+                    steps.push(Step::Direct(WOp::SigBulk(n, m)));
+                    if g.r.chance(20) { steps.push(Step::AppSetup); }
+                    steps.push(Step::Direct(WOp::Gc));
+                    steps.push(Step::Direct(WOp::Gc));
+                    continue;
+                }
                 // signal ops keep the invariant: a drop that reaches zero is followed at once by a collection
                 let s = g.r.below(4) as usize;
                 if !sig_used[s] { sig_used[s] = true; sig_count[s] = 1; let slot = g.r.below(nslots as u64) as Slot; steps.push(Step::Direct(WOp::SigPrepare(s as u8, slot))); }
